@@ -21,6 +21,7 @@ type Config struct {
 	Unwind    int // max visits of one loop header per frame activation
 	MaxSteps  int // SSA instructions per path
 	MaxPaths  int
+	TimeBoxS  int // wall-clock cap of one harness' exploration in seconds (0 = none)
 	MaxDepth  int // decisions per path
 	AllocCap  int // max elements for make/append with symbolic size
 	Preempt   int // zzverif.Par: max preemptive context switches per path (-1: unlimited)
